@@ -5,7 +5,7 @@ From J5V.lib Require Import Outcome.
 From J5V.model Require Import Pipeline PipelineCompile PipelineCorr.
 From J5V.gen Require SwaggerGen.
 From J5V.lib Require Strcase.
-From J5V.proofs Require Import PipelineProofs PipelineStrcaseProofs StrcaseProofs PipelineChainProofs.
+From J5V.proofs Require Import PipelineProofs PipelineStrcaseProofs StrcaseProofs PipelineChainProofs PipelinePathProofs.
 Import ListNotations.
 Local Open Scope N_scope.
 
@@ -36,6 +36,52 @@ Definition C16_full_statement : Prop :=
 Theorem C16_full : C16_full_statement.
 Proof. exact chain_full. Qed.
 Print Assumptions C16_full.
+
+
+(* ... instantiated with the byte-exact model of iancoleman/strcase ToSnake: the hypotheses on ToSnake are
+   replaced by a condition on the request's property names (lowerCamel: letters, no two adjacent capitals);
+   compile_image with this ToSnake is what the compile-image stream compares with the real compiler *)
+Theorem C16_full_strcase : forall P, valid_package_strcase P ->
+  let r := run_chain current_config (compile_image Strcase.to_snake P) in
+  exists ks,
+    cr_source r = Ok (declared_api P)
+    /\ cr_client r = Ok (declared_clients Strcase.to_snake P, ks)
+    /\ (forall x, In x ks <->
+          present (image_env Strcase.to_snake P) x /\
+          exists k, In k (flat_map method_roots (declared_clients Strcase.to_snake P))
+                    /\ present (image_env Strcase.to_snake P) k
+                    /\ reach (image_env Strcase.to_snake P) k x)
+    /\ cr_swagger r = Ok tt.
+Proof. exact chain_full_strcase. Qed.
+Print Assumptions C16_full_strcase.
+
+(* ---- each path parameter names a request property --------------------------------------------- *)
+(* about the code, without assuming that the declared path only uses request properties: whenever
+   buildMethod accepts a method, every ":name" of the client path is the JSON name of an input field of the
+   request message (a "{x}" part is mapped through the field found by proto name x; a literal part
+   containing ':' is rejected) ... *)
+Theorem C16_path_params_are_input_fields : forall m sm,
+  (forall f, In f (md_in_fields m) -> no_char SLASH (f_json f)) ->
+  build_method m = Ok sm ->
+  forall n, In n (path_param_names (sm_path sm)) -> exists f, In f (md_in_fields m) /\ f_json f = n.
+Proof. exact build_method_path_params. Qed.
+Print Assumptions C16_path_params_are_input_fields.
+
+(* ... and fillRequest puts the request property of that name among the path parameters *)
+Theorem C16_path_params_covered : forall verb path props n,
+  In n (path_param_names path) -> In n (map p_json props) ->
+  exists p, In p (r_path (fill_request verb path props)) /\ p_json p = n.
+Proof. exact fill_request_covers_params. Qed.
+Print Assumptions C16_path_params_covered.
+
+(* together, for what the compiler emits for a declared method (any ToSnake, any declared path) *)
+Theorem C16_path_params_name_request_properties : forall (to_snake : str -> str) (d : decl_full) sm,
+  (forall n, In n (map p_json (df_req d)) -> no_char SLASH n) ->
+  build_method (compile_method to_snake (df_decl d)) = Ok sm ->
+  forall n, In n (path_param_names (sm_path sm)) ->
+    exists p, In p (r_path (fill_request (sm_verb sm) (sm_path sm) (df_req d))) /\ p_json p = n.
+Proof. exact declared_path_params_name_props. Qed.
+Print Assumptions C16_path_params_name_request_properties.
 
 (* ---- source API: exactly the declared services and methods, declared verb and path ------- *)
 (* buildMethod on what the compiler emits for one method: accepted, verb and path recovered.
